@@ -1,5 +1,7 @@
 import PgFdr.Proofs.C12
 import PgFdr.Proofs.C17
+import PgFdr.Proofs.CliQuant
+import PgFdr.Proofs.CliQuantDemo
 import Mathlib.Data.Finset.Card
 import Mathlib.Data.List.Dedup
 import Mathlib.Data.Finset.Dedup
@@ -348,6 +350,190 @@ theorem conservation (rows : List Row) (groups : List (List String)) (level : Ra
   rw [hgt, sum_partition (fun g r => entersGroup rows groups c g r)
     (fun r i j => entersGroup_unique rows groups c r i j)]
   rfl
+
+/-! ## the command line: `python -m picked_group_fdr --do_quant --skip_lfq` on MaxQuant evidence
+
+`PgFdr.CliQuant.quantRun` (Model/CliQuant.lean, driver op `cli_quant`, compared cell by cell with the table the real
+`main(argv)` writes — harness/cli_model.py) composes the command-line model `PgFdr.Cli` (annotations, methods, digest
+maps, ingestion, inference: `t.base`), the iBAQ digest of C09, `quantify` above and the MaxQuant writer of C13.  The two
+theorems below carry the per-column theorems of this file over to the rows of the written table. -/
+
+/-- the SILAC lists of a run with uniform SILAC columns are not longer than the accepted channel number -/
+private theorem silac_le_of_uniform (rows : List Row) (S : Nat) (hS : silacChannels (nSilac rows) = .ok S)
+    (huniform : ∀ r ∈ parsed rows, (r.silac.length : Int) = nSilac rows) :
+    ∀ r ∈ parsed rows, r.silac.length ≤ S := by
+  intro r hr
+  have h1 := huniform r hr
+  unfold silacChannels at hS
+  split at hS
+  · rename_i h3
+    have : nSilac rows = 3 := by simpa using h3
+    cases hS; omega
+  · split at hS
+    · rename_i h2
+      have : nSilac rows = 2 := by simpa using h2
+      cases hS; omega
+    · split at hS
+      · cases hS
+      · cases hS; omega
+
+/-- "Per group and experiment the summed intensity, iBAQ …, unique-peptide counts, identification type and evidence
+    IDs equal a direct recomputation from those precursors, the total intensity is the sum over experiments" — for
+    the table the COMMAND LINE writes: for every completed run with `--do_quant --skip_lfq` and every written
+    quantification table `t` (evidence rows with the header's SILAC columns),
+    * `t.base` is the table's method run in the command-line model (`Cli.runMethod` for a position of `--methods`,
+      in the environment `Cli.setup` computed), the quantified groups are the rows that run reported, the evidence rows
+      are the rows of the method's evidence files remapped through the digest map of their file's position, the iBAQ
+      numbers are the iBAQ digest of the FASTA files under all digestion parameter sets of the command line;
+    * the quantification is `quantifyWith S` at `--psm_fdr_cutoff`, its PEP cutoff is the C17 cutoff of the PEPs of
+      the attached target rows (`cutoff_is_c17`), the written rows are exactly the reported rows with an attached
+      precursor, in the reported order (`output_groups`);
+    * the records handed to `csv.writer` are the header list of the MaxQuant writer followed by the nine base cells,
+      three annotation cells and the quantification cells of every line;
+    * every quantification column of every written row is the recomputation from the row's identified precursors:
+      the right-hand sides of `counts_recompute`, `idtype_recompute`, `intensity_recompute`,
+      `total_is_sum_of_experiments`, `ibaq_def`, `evidence_ids_sorted_exact` (`CliQuant.ColumnsRecomputed`);
+    * `conservation`: the `Intensity` column summed over the written rows is the sum of the intensities of the
+      evidence rows that enter a group, each once. -/
+theorem cli_quant_columns_recompute (q : CliQuant.QuantInput) (ts : List CliQuant.QTable)
+    (hrun : CliQuant.quantRun q = .ok ts) (t : CliQuant.QTable) (ht : t ∈ ts)
+    (p : CliQuant.QuantPart) (hp : t.quant = some p)
+    (huniform : ∀ r ∈ parsed p.rows, (r.silac.length : Int) = nSilac p.rows) :
+    ∃ (env : Cli.Env) (cfgs : List C18.Cfg) (i : Nat) (name : String) (cfg : C18.Cfg) (S : Nat) (hs : List String),
+      Cli.setup q.cli = .ok (env, cfgs) ∧ q.cli.methods[i]? = some name ∧ cfgs[i]? = some cfg ∧
+      Cli.runMethod q.cli env (decide (cfgs.length > 1)) name cfg (q.cli.recs.getD i default) = .ok (some t.base) ∧
+      p.groups = t.base.rows.map CliQuant.groupOf ∧
+      p.rows = CliQuant.evidenceRows q env.maps cfg ∧
+      CliQuant.ibaqNumbers (CliQuant.ibaqParse q env.usePseudo) q.cli = .ok p.ibaq ∧
+      silacChannels (nSilac p.rows) = .ok S ∧
+      p.out = quantifyWith S p.rows p.groups q.cli.psm p.ibaq ∧
+      p.out.experiments = experiments p.rows ∧
+      p.out.cutoff = C17.cutoff (pepList p.rows p.groups) q.cli.psm ∧
+      p.lines.map (·.g) = (List.range p.groups.length).filter (fun g => !(attached p.rows p.groups g).isEmpty) ∧
+      CliQuant.quantHeaders (CliQuant.ctxOf p.out) = .ok hs ∧
+      t.records = hs :: p.lines.map (fun l =>
+        (CliQuant.lineRow env.ann p.seqs p.out.experiments p.out.cutoff l).toList) ∧
+      (∀ l ∈ p.lines, t.base.rows[l.g]? = some l.base ∧ p.groups[l.g]? = some l.out.ids ∧
+        CliQuant.ColumnsRecomputed (experiments p.rows) S p.out.cutoff p.ibaq l.out.ids
+          (retain p.out.cutoff (attached p.rows p.groups l.g)) l.out) ∧
+      (p.lines.map (·.out.total)).sum =
+        (((parsed p.rows).filter (rowCounted p.rows p.groups p.out.cutoff)).map (fun r => r.intensity.getD 0)).sum := by
+  obtain ⟨env, cfgs, i, name, cfg, hsetup, hname, hcfg, hrunq⟩ := CliQuant.quantRun_table q ts hrun t ht
+  obtain ⟨hbase, hq⟩ := CliQuant.runMethodQ_spec q env _ name cfg _ t hrunq
+  rcases hq with ⟨p', hp', -, -, hpart⟩ | ⟨hnone, -⟩
+  swap
+  · rw [hnone] at hp; cases hp
+  rw [hp] at hp'
+  cases hp'
+  obtain ⟨-, -, hrows, hgroups, -, hibaq, hquant, hlines, hrender⟩ := CliQuant.quantPart_spec q env cfg _ p _ hpart
+  obtain ⟨S, hS, hout⟩ := (quantify_ok p.rows p.groups q.cli.psm p.ibaq p.out).mp hquant
+  obtain ⟨hs, hhs, hrecs, -⟩ := CliQuant.renderQuant_eq _ _ _ hrender
+  have hlen := silac_le_of_uniform p.rows S hS huniform
+  have hcut : p.out.cutoff = cutoffOf p.rows p.groups q.cli.psm := by rw [hout]; rfl
+  have hexps : p.out.experiments = experiments p.rows := by rw [hout]; rfl
+  have hl : p.lines = (keptIdx p.rows p.groups).map (fun g =>
+      ({ g := g, base := t.base.rows.getD g default,
+         out := groupOut (experiments p.rows) S (nTmt p.rows) (cutoffOf p.rows p.groups q.cli.psm) p.ibaq
+           (p.groups.getD g []) (retain (cutoffOf p.rows p.groups q.cli.psm) (attached p.rows p.groups g)) } :
+        CliQuant.QLine)) := by
+    rw [hlines, hout]
+    exact CliQuant.quantLines_eq S _ p.rows p.groups q.cli.psm p.ibaq
+  have hglen : p.groups.length = t.base.rows.length := by rw [hgroups, List.length_map]
+  refine ⟨env, cfgs, i, name, cfg, S, hs, hsetup, hname, hcfg, hbase, hgroups, hrows, hibaq, hS, hout, hexps, ?_, ?_,
+    hhs, ?_, ?_, ?_⟩
+  · rw [hcut]; exact cutoff_is_c17 _ _ _
+  · rw [hl, List.map_map]
+    simp only [Function.comp_def, List.map_id']
+    rfl
+  · rw [hrecs, List.map_map]
+    rfl
+  · intro l hlmem
+    rw [hl] at hlmem
+    obtain ⟨g, hg, rfl⟩ := List.mem_map.mp hlmem
+    obtain ⟨hglt, -⟩ := CliQuant.keptIdx_lt p.rows p.groups g hg
+    rw [hcut]
+    refine ⟨?_, ?_, ?_⟩
+    · show t.base.rows[g]? = some (t.base.rows.getD g default)
+      have : g < t.base.rows.length := hglen ▸ hglt
+      simp [List.getD_eq_getElem?_getD, List.getElem?_eq_getElem this]
+    · show p.groups[g]? = some (p.groups.getD g [])
+      simp [List.getD_eq_getElem?_getD, List.getElem?_eq_getElem hglt]
+    · have hsub : ∀ x ∈ retain (cutoffOf p.rows p.groups q.cli.psm) (attached p.rows p.groups g), x.silac.length ≤ S := by
+        intro x hx
+        exact hlen x ((mem_attached p.rows p.groups g x).mp ((mem_retain _ _ x).mp hx).1).1
+      obtain ⟨hc0, hce⟩ := counts_recompute (experiments p.rows) (cutoffOf p.rows p.groups q.cli.psm)
+        (retain (cutoffOf p.rows p.groups q.cli.psm) (attached p.rows p.groups g))
+      obtain ⟨he1, he2⟩ := evidence_ids_sorted_exact (cutoffOf p.rows p.groups q.cli.psm)
+        (retain (cutoffOf p.rows p.groups q.cli.psm) (attached p.rows p.groups g))
+      exact ⟨rfl, rfl, hc0, hce,
+        fun e he => idtype_recompute _ _ _ e he,
+        fun e k he hk => intensities_slot _ S _ _ e k he hk hsub,
+        total_is_sum_of_experiments _ S _ _, rfl, rfl, rfl, he1, he2⟩
+  · have hcons := conservation p.rows p.groups q.cli.psm p.ibaq p.out hquant huniform
+    rw [hcut, ← hcons]
+    congr 1
+    rw [hl, hout, output_groups, List.map_map, List.map_map]
+    rfl
+
+/-- "over all groups no evidence row is counted twice" — for the table the command line writes: the written rows
+    stem from strictly increasing positions of the reported rows (no reported row is written twice), the precursors of
+    every written row are a sub-list of the evidence rows (file order, each occurrence at most once), and an evidence
+    row among the precursors of two written rows makes them the same row -/
+theorem cli_quant_no_row_twice (q : CliQuant.QuantInput) (ts : List CliQuant.QTable)
+    (hrun : CliQuant.quantRun q = .ok ts) (t : CliQuant.QTable) (ht : t ∈ ts)
+    (p : CliQuant.QuantPart) (hp : t.quant = some p) :
+    (p.lines.map (·.g)).Pairwise (· < ·) ∧
+    (∀ l ∈ p.lines, l.out.quants.Sublist p.rows) ∧
+    (∀ l ∈ p.lines, ∀ l' ∈ p.lines, ∀ r, r ∈ l.out.quants → r ∈ l'.out.quants → l = l') := by
+  obtain ⟨env, cfgs, i, name, cfg, -, -, -, hrunq⟩ := CliQuant.quantRun_table q ts hrun t ht
+  obtain ⟨-, hq⟩ := CliQuant.runMethodQ_spec q env _ name cfg _ t hrunq
+  rcases hq with ⟨p', hp', -, -, hpart⟩ | ⟨hnone, -⟩
+  swap
+  · rw [hnone] at hp; cases hp
+  rw [hp] at hp'
+  cases hp'
+  obtain ⟨-, -, -, -, -, -, hquant, hlines, -⟩ := CliQuant.quantPart_spec q env cfg _ p _ hpart
+  obtain ⟨S, -, hout⟩ := (quantify_ok p.rows p.groups q.cli.psm p.ibaq p.out).mp hquant
+  have hl := CliQuant.quantLines_eq S t.base.rows p.rows p.groups q.cli.psm p.ibaq
+  rw [← hout, ← hlines] at hl
+  obtain ⟨huniq, hsub⟩ := no_row_twice p.rows p.groups
+  refine ⟨?_, ?_, ?_⟩
+  · rw [hl, List.map_map]
+    simp only [Function.comp_def, List.map_id']
+    exact CliQuant.keptIdx_sorted p.rows p.groups
+  · intro l hlmem
+    rw [hl] at hlmem
+    obtain ⟨g, -, rfl⟩ := List.mem_map.mp hlmem
+    exact (identified_filter_sublist _ _).trans (hsub g)
+  · intro l hlmem l' hlmem' r hr hr'
+    rw [hl] at hlmem hlmem'
+    obtain ⟨g, -, rfl⟩ := List.mem_map.mp hlmem
+    obtain ⟨g', -, rfl⟩ := List.mem_map.mp hlmem'
+    have h1 : r ∈ attached p.rows p.groups g := (identified_filter_sublist _ _).subset hr
+    have h2 : r ∈ attached p.rows p.groups g' := (identified_filter_sublist _ _).subset hr'
+    rw [huniq g g' r h1 h2]
+
+/-- the rows a quantification table is built on are the rows the same command line reports without the
+    quantification flags: a completed quantification run is, table for table, an extension of the completed plain run
+    (`Cli.cliRun`), so `cli_tables_satisfy_guarantees`, `cli_tables_sorted_disjoint`, `cli_methods_independent` of
+    `Props/C18.lean` apply to `t.base` -/
+theorem cli_quant_rows_are_cli_rows (q : CliQuant.QuantInput) (ts : List CliQuant.QTable)
+    (hrun : CliQuant.quantRun q = .ok ts) :
+    Cli.cliRun q.cli = .ok (ts.map (·.base)) :=
+  CliQuant.quantRun_base q ts hrun
+
+/-! non-vacuity of the three command-line theorems: the completed run `CliQuant.demo_quant_run`
+(`Proofs/CliQuantDemo.lean`: `--methods picked_protein_group_mq_input_no_remap --do_quant --skip_lfq` on a two-protein
+database and a five-row evidence file; the inference is `Pipeline.demo_run2`) meets every hypothesis, and its table is
+not trivial (a match-between-runs row counted, an unidentified charge state dropped, a decoy row written) -/
+example : ∃ ts t p, CliQuant.quantRun CliQuant.demoQ = .ok ts ∧ t ∈ ts ∧ t.quant = some p ∧
+    (∀ r ∈ parsed p.rows, (r.silac.length : Int) = nSilac p.rows) ∧
+    p.lines.map (·.g) = [0, 1] ∧ p.lines.map (·.out.intens) = [[111, 50], [7, 0]] ∧
+    p.lines.map (·.out.total) = [161, 7] ∧ p.lines.map (·.out.evidenceIds) = [[0, 1, 3], [2]] ∧
+    p.rows.map (·.id) = [0, 1, 2, 3, 4] := by
+  obtain ⟨t, hrun, hq, -, -⟩ := CliQuant.demo_quant_run
+  obtain ⟨h1, h2, h3, -, -, h4, -⟩ := CliQuant.demo_values
+  exact ⟨[t], t, CliQuant.demoPart, hrun, by simp, hq, CliQuant.demo_uniform, h1, h2, h3, h4, by decide +kernel⟩
 
 /-! ## non-vacuity: a concrete SILAC run meeting every hypothesis above
 
